@@ -18,12 +18,23 @@ Definition u64_max : N := 2 ^ 64 - 1.
 
 (* ================================================================== *)
 (* Mesh::nodes(): coordinates.chunks_exact(dim).zip(node_refs)          *)
+(* the first n elements and the rest, None when there are fewer (recursion on the list: n may be
+   any u64) *)
+Fixpoint split_at (n : N) (s : list N) : option (list N * list N) :=
+  if n =? 0 then Some ([], s)
+  else
+    match s with
+    | [] => None
+    | b :: t => match split_at (n - 1) t with Some (h, r) => Some (b :: h, r) | None => None end
+    end.
 Fixpoint zip_chunks_exact (d : N) (cs : list N) (rs : list Z) : list (list N * Z) :=
   match rs with
   | [] => []
   | r :: rs' =>
-    if N.of_nat (length cs) <? d then []
-    else (firstn (N.to_nat d) cs, r) :: zip_chunks_exact d (skipn (N.to_nat d) cs) rs'
+    match split_at d cs with
+    | None => []
+    | Some (h, t) => (h, r) :: zip_chunks_exact d t rs'
+    end
   end.
 
 (* nodes.chunks(k).zip(refs), k >= 1 *)
@@ -160,9 +171,17 @@ Definition cap8_check (a b : N) : option N :=
 
 Record widths := { w_int : nat; w_float : nat; w_pos : nat }.
 
-(* one vertex: dimension floats, one int *)
+(* min(n, length s), without walking the whole of s *)
+Fixpoint bounded_len (n : N) (s : list N) : nat :=
+  match s with
+  | [] => O
+  | _ :: t => if n =? 0 then O else S (bounded_len (n - 1) t)
+  end.
+
+(* one vertex: dimension floats, one int.  [dim] comes from the file: the loop runs on fuel
+   1 + min(dim, remaining bytes), enough because every float consumes at least one byte *)
 Definition read_vertex (le : bool) (w : widths) (dim : N) (s : list N) : fres ((list N * Z) * list N) :=
-  match read_items (S (length s)) dim (read_float le (w_float w)) s with
+  match read_items (S (bounded_len dim s)) dim (read_float le (w_float w)) s with
   | FOk (cs, s1) =>
     match read_sint le (w_int w) s1 with
     | FOk (r, s2) => FOk ((cs, r), s2)
@@ -179,7 +198,7 @@ Definition read_node (le : bool) (w : widths) (s : list N) : fres (N * list N) :
   end.
 
 Definition read_element (le : bool) (w : widths) (npe : nat) (s : list N) : fres ((list N * Z) * list N) :=
-  match read_items (S (length s)) (N.of_nat npe) (read_node le w) s with
+  match read_items npe (N.of_nat npe) (read_node le w) s with        (* exactly npe iterations *)
   | FOk (ns, s1) =>
     match read_sint le (w_int w) s1 with
     | FOk (r, s2) => FOk ((ns, r), s2)
